@@ -160,6 +160,21 @@ def run(rep, br, proofs, rng, tier):
         outcomes[k] = outcomes.get(k, 0) + 1
         if i != s: fails.append((c, "implementation differs from the specified semantics (SkelSem): impl %s, spec %s" % (i, s)))
         if i != v: dis.append(c)
+    # the same skeletons with value-less return statements (a separate path of the compiler): every skeleton with a
+    # return inside a try statement, compared with the specification up to the returned value
+    import re
+    def noval(x): return re.sub(r"\(r \d+\)", "(r u)", re.sub(r"\(return -?\d+\)", "(normal)", x)) if x else x
+    bcases = [c for c in cases if "(ret" in c["line"] and "(try" in c["line"]]
+    bimpl, _ = vlib.run_impl([c["line"].replace(" skelvm ", " skelvmb ", 1) for c in bcases], timeout=3000)
+    bare_compared = 0
+    for c in bcases:
+        i, sm = bimpl.get(c["id"]), c["sem"]
+        if i is None: fails.append((c, "no output (value-less returns)")); continue
+        if i == "(compile-error)" and c["impl"] == "(compile-error)": continue
+        bare_compared += 1
+        if noval(i) != noval(sm):
+            c = dict(c); c["line"] = c["line"].replace(" skelvm ", " skelvmb ", 1)
+            fails.append((c, "with value-less return statements the implementation differs from the specified semantics (SkelSem, returned values ignored): impl %s, spec %s" % (i, sm)))
     for c, why in fails[:10]:
         rep.violation({"property": "C03", "kind": "oracle", "why": why, "case": c["line"], "impl": c["impl"], "sem": c["sem"], "model_vm": c["model"]})
     for c in cdiff[:10]:
@@ -172,18 +187,18 @@ def run(rep, br, proofs, rng, tier):
     nt = sum(1 for c in cases if nontrivial(c["args"], c["impl"]))
     rep.coverage.update({
         "evaluations": len(cases), "distinct_nontrivial": nt,
-        "rule": "all skeleton statements with at most %d nodes (blocks of at most 2 statements) over exit kinds log/break/continue/return/throw/runtime-error at every position, each placed after 0-2 completed try statements, inside loops, and inside called functions; plus a seeded sample of size %d skeletons; distinct by program text; non-trivial = contains a try statement and a non-normal exit" % (maxn, maxn + 1),
+        "rule": "all skeleton statements with at most %d nodes (blocks of at most 2 statements) over exit kinds log/break/continue/return/throw/runtime-error at every position, each placed after 0-2 completed try statements, inside loops, and inside called functions; plus a seeded sample of size %d skeletons; distinct by program text; every skeleton with a return inside a try statement is run a second time with value-less return statements (returned values ignored in the comparison); non-trivial = contains a try statement and a non-normal exit" % (maxn, maxn + 1),
         "samples": [cases[0]["line"], cases[len(cases)//2]["line"], cases[-1]["line"]],
         "exhaustive_up_to_nodes": maxn, "outcome_distribution": outcomes,
-        "compilers_compared": len(cases), "compilers_differ": len(cdiff),
+        "value_less_return_runs_compared": bare_compared, "compilers_compared": len(cases), "compilers_differ": len(cdiff),
         "disagreements": len(dis), "oracle_failures": len(fails)})
 
 def replay(payload, br):
     line = payload.get("case", "")
     if not line.startswith("(case"):
         print("replay:", payload.get("what")); return 1
-    impl, _ = vlib.run_impl([line]); sem, _ = vlib.run_model([line.replace(" skelvm ", " skelsem ", 1)])
-    src, _ = vlib.run_impl([line.replace(" skelvm ", " skelsrc ", 1)])
+    impl, _ = vlib.run_impl([line]); sem, _ = vlib.run_model([line.replace(" skelvmb ", " skelvm ", 1).replace(" skelvm ", " skelsem ", 1)])
+    src, _ = vlib.run_impl([line.replace(" skelvmb ", " skelvm ", 1).replace(" skelvm ", " skelsrc ", 1)])
     for k, v in src.items(): print(v.replace("\\n", "\n").replace("_", " "))
     print("impl:", impl); print("spec:", sem)
     return 0 if impl == sem else 1
